@@ -79,24 +79,32 @@ CLAUSES = {
     '__mul__': _new({'factor': 'T'}, 'ival(result) == %s * ival(factor)' % V),
     '__floordiv__': _new({'divisor': 'T'}, 'spec.integer.is_floor_quotient(%s, ival(divisor), ival(result))' % V,
                          raises={'ZeroDivisionError': ('iff', 'ival(divisor) == 0')}),
-    '__mod__': _new({'divisor': 'T'}, 'spec.integer.is_residue(%s, ival(divisor), ival(result))' % V, raises=_modr('divisor')),
+    '__mod__': _new({'divisor': 'T'}, 'spec.integer.is_residue(%s, ival(divisor), ival(result))' % V, raises=_modr('divisor'),
+                    extra={'python_mod': 'ival(result) == %s %% ival(divisor)' % V}),      # (the same number, as python writes it)
     '__abs__': _new({}, 'ival(result) == (%s if %s >= 0 else -%s)' % (V, V, V)),
     '__iadd__': _inplace({'term': 'T'}, 'ival(self) == %s + ival(term)' % V),
     '__isub__': _inplace({'term': 'T'}, 'ival(self) == %s - ival(term)' % V),
     '__imul__': _inplace({'term': 'T'}, 'ival(self) == %s * ival(term)' % V),
-    '__imod__': _inplace({'term': 'T'}, 'spec.integer.is_residue(%s, ival(term), ival(self))' % V, raises=_modr('term')),
+    '__imod__': _inplace({'term': 'T'}, 'spec.integer.is_residue(%s, ival(term), ival(self))' % V, raises=_modr('term'),
+                         extra={'python_mod': 'ival(self) == %s %% ival(term)' % V}),
     'multiply_accumulate': _inplace({'a': 'T', 'b': 'T'}, 'ival(self) == %s + ival(a) * ival(b)' % V),
     'set': _inplace({'source': 'T'}, 'ival(self) == ival(source)'),
-    # ---- exponentiation: negative exponent ==> ValueError, negative modulus ==> ValueError, zero modulus ==> ZeroDivisionError
+    # ---- exponentiation: negative exponent ==> ValueError, negative modulus ==> ValueError, zero modulus ==> ZeroDivisionError.
+    # C16 speaks of inputs violating a SINGLE precondition, so the two exception types are `only_if` and every normal return
+    # proves that no precondition was violated ('domain'): an input violating exactly one precondition can then only raise
+    # the exception of that precondition (no other type may escape), while the priority between two violated preconditions
+    # (pow(x, -1, 0): ValueError in Native/Custom, ZeroDivisionError in GMP) is left open.
     'inplace_pow': _inplace({'exponent': 'T', 'modulus': 'T|none'},
                             'ival(self) == (ipow(%s, ival(exponent)) if modulus is None else modpow(%s, ival(exponent), ival(modulus)))' % (V, V),
-                            raises={'ValueError': ('iff', 'ival(exponent) < 0 or (modulus is not None and ival(modulus) < 0)'),
-                                    'ZeroDivisionError': ('iff', 'ival(exponent) >= 0 and modulus is not None and ival(modulus) == 0')},
-                            extra={'range': '(modulus is not None) ==> (0 <= ival(self) and ival(self) < ival(modulus))'}),
+                            raises={'ValueError': ('only_if', 'ival(exponent) < 0 or (modulus is not None and ival(modulus) < 0)'),
+                                    'ZeroDivisionError': ('only_if', 'modulus is not None and ival(modulus) == 0')},
+                            extra={'domain': 'ival(exponent) >= 0 and (modulus is None or ival(modulus) > 0)',
+                                   'range': '(modulus is not None) ==> (0 <= ival(self) and ival(self) < ival(modulus))'}),
     '__pow__': _new({'exponent': 'T', 'modulus': 'T|none'},
                     'ival(result) == (ipow(%s, ival(exponent)) if modulus is None else modpow(%s, ival(exponent), ival(modulus)))' % (V, V),
-                    raises={'ValueError': ('iff', 'ival(exponent) < 0 or (modulus is not None and ival(modulus) < 0)'),
-                            'ZeroDivisionError': ('iff', 'ival(exponent) >= 0 and modulus is not None and ival(modulus) == 0')}),
+                    raises={'ValueError': ('only_if', 'ival(exponent) < 0 or (modulus is not None and ival(modulus) < 0)'),
+                            'ZeroDivisionError': ('only_if', 'modulus is not None and ival(modulus) == 0')},
+                    extra={'domain': 'ival(exponent) >= 0 and (modulus is None or ival(modulus) > 0)'}),
     # ---- bit operations
     '__and__': _new({'term': 'T'}, 'ival(result) == bitand(%s, ival(term))' % V),
     '__or__': _new({'term': 'T'}, 'ival(result) == bitor(%s, ival(term))' % V),
@@ -141,13 +149,23 @@ CLAUSES = {
 FRAME = {'native': ['self._value'], 'gmp': ['self._mpz_p.g_val']}
 
 
-def interface_contracts(reg, cls, frame, names=None, self_type=None, per_method=None):
+def interface_contracts(reg, cls, frame, names=None, self_type=None, per_method=None, rename=None):
     """instantiate the shared clauses for the methods `names` of class `cls` (qualified name)"""
     out = []
     T = operand(self_type[4:] if self_type else cls)
+    import re
     for nm, d in CLAUSES.items():
         if names is not None and nm not in names:
             continue
+        # a back end may name a parameter differently (GMP: __mul__(term), __imod__(divisor)): same clauses, renamed
+        ren = (rename or {}).get(nm, {})
+        def rn(txt, ren=ren):
+            for a, b in ren.items():
+                txt = re.sub(r'\b%s\b' % a, b, txt)
+            return txt
+        if ren:
+            d = dict(d, params={ren.get(k, k): t for k, t in d['params'].items()},
+                     raises={k: (m, rn(c)) for k, (m, c) in d['raises'].items()}, ensures={k: rn(c) for k, c in d['ensures'].items()})
         params = {k: t.replace('T', T) for k, t in d['params'].items()}
         kwargs = dict(params=params, raises=d['raises'], ensures=d['ensures'],
                       modifies=(list(frame) if d['kind'] == 'inplace' else []), self_type=self_type)
